@@ -336,6 +336,26 @@ func creation(c *mon.Ctx, r *gen.Rand) {
 	if got2, err := packet.Payload(p2); p2 == nil || p2[0] != 0x47 || p2.PID() != pid || !p2.HasPayload() || !p2.PayloadUnitStartIndicator() || err != nil || !bytes.Equal(got2[:4], pay4) {
 		c.Fail("create:Create-option-list-overwritten", "a second Create with a longer option list that shares its backing array with the first call's list lost a requested option", w(p2, ""))
 	}
+	// the flag options in every order: each one sets its flag and leaves the others alone
+	type opt struct {
+		f    func(*packet.Packet)
+		name string
+	}
+	all := []opt{{packet.WithHasPayloadFlag, "WithHasPayloadFlag"}, {packet.WithHasAdaptationFieldFlag, "WithHasAdaptationFieldFlag"}, {packet.WithPUSI, "WithPUSI"}}
+	perm := r.Perm(3)
+	use := 1 + r.Intn(3)
+	var fs []func(*packet.Packet)
+	names, want := "", map[string]bool{}
+	for _, k := range perm[:use] {
+		fs = append(fs, all[k].f)
+		names += all[k].name + ", "
+		want[all[k].name] = true
+	}
+	p = packet.Create(pid, fs...)
+	c.Eval(1)
+	if p == nil || p[0] != 0x47 || p.PID() != pid || p.HasPayload() != want["WithHasPayloadFlag"] || p.HasAdaptationField() != want["WithHasAdaptationFieldFlag"] || p.PayloadUnitStartIndicator() != want["WithPUSI"] {
+		c.Fail("create:Create-option-order", fmt.Sprintf("Create(pid=%d, %s) does not carry exactly the requested flags", pid, names), w(p, names))
+	}
 	pts := r.U33()
 	p = packet.Create(pid)
 	packet.WithPES(p, pts)
